@@ -1,7 +1,7 @@
 --------------------------- MODULE FoTypeExprCases ---------------------------
 (* checks the round trip on every enumerated term and exports term, both token sequences and the Go text *)
 EXTENDS FoTypeExpr, Json, SequencesExt
-CONSTANTS Depth2, OutFile
+CONSTANTS Depth2, Full2, OutFile
 
 Full == Bases(BaseNames) \cup {<<"named", "buf.Buffer", <<>>>>}
 Keys1 == Bases({"int", "string"})
@@ -9,7 +9,12 @@ D1 == Ctor1(Full, Keys1) \cup Tuple3s(Bases({"int", "string", "bool"}))
 Small == Bases({"int", "string"})
 D1Small == Ctor1(Small, Small) \cup Tuple3s(Small)
 \* depth 2: one constructor over depth <= 1 terms of the small base (3-tuples get one deep component)
-D2 == IF Depth2
+D2 == IF Full2
+      THEN \* thorough: one constructor over ALL depth <= 1 terms of the small base in every position (86 k terms)
+           Ctor1(Small \cup D1Small, Small)
+           \cup {<<"tuple", <<a, b, c>>>> : a \in D1Small, b \in Small, c \in Small}
+           \cup {<<"tuple", <<a, b, c>>>> : a \in Small, b \in Small, c \in D1Small}
+      ELSE IF Depth2
       THEN LET Deep == D1Small
                Sh == Small IN
                 {<<"slice", t>> : t \in Deep}
